@@ -185,6 +185,27 @@ def _scan_shared(ns):
     import enum
     import inspect
     import types
+    repo_pkgs = ('bp', 'tcpcl', 'udpcl', 'btpu', 'scapy_cbor')
+
+    def mutable_default(val):
+        if isinstance(val, (set, list, dict, bytearray)):
+            return True
+        mod = getattr(type(val), '__module__', '') or ''
+        return hasattr(val, 'fields_desc') or mod.split('.')[0] in repo_pkgs and not isinstance(val, enum.Enum)
+
+    def add_default_sites(func):
+        for (k, val) in enumerate(func.__defaults__ or ()):
+            if mutable_default(val):
+                try:
+                    pristine = copy.deepcopy(val)
+                except Exception:
+                    continue
+
+                def setter(obj, func=func, k=k):
+                    cur = list(func.__defaults__)
+                    cur[k] = obj
+                    func.__defaults__ = tuple(cur)
+                _SHARED_SITES.append((setter, pristine))
     for mod in list(ns.modules.values()):
         if not isinstance(mod, types.ModuleType) or id(mod) in _SHARED_SEEN:
             continue
@@ -196,13 +217,18 @@ def _scan_shared(ns):
                 owners.append(cls)
         for owner in owners:
             for (attr, val) in list(vars(owner).items()):
+                func = getattr(val, '__func__', val)
+                if isinstance(func, types.FunctionType) and func.__module__ == mod.__name__ and not attr.startswith('__verif'):
+                    # a mutable object as the default value of a parameter lives as long as the process
+                    add_default_sites(func)
+                    continue
                 if attr.startswith('__') or attr.isupper() or not isinstance(val, (set, list, dict, bytearray)):
                     continue
                 try:
                     pristine = copy.deepcopy(val)
                 except Exception:
                     continue
-                _SHARED_SITES.append((owner, attr, pristine))
+                _SHARED_SITES.append((lambda obj, owner=owner, attr=attr: setattr(owner, attr, obj), pristine))
 
 
 def shared_sites():
